@@ -90,7 +90,13 @@ if [ -e "$VMARK/fail-y-timeout" ]; then sleep 30; fi
 if [ -e "$VMARK/fail-y-noout" ]; then rm -f y.out; echo "end $GROG_TARGET" >> "$VTRACE"; exit 0; fi
 printf 'y(%s,%s)' "$(cat x.out)" "$(cat y.in)" > y.out
 echo "end $GROG_TARGET" >> "$VTRACE"`
-	s.Targets = append(s.Targets, hist.Target{Pkg: "p", Name: "y", Command: yCmd, Inputs: []string{"y.in"}, Outputs: []string{"y.out"}, Deps: []string{":x"}, Timeout: "1s", Tags: tags("y")})
+	// the timeout is only declared while the timeout failure is armed: a short timeout on a
+	// normally running command would make the check depend on machine load
+	yTimeout := ""
+	if c.Marks["fail-y-timeout"] {
+		yTimeout = "1s"
+	}
+	s.Targets = append(s.Targets, hist.Target{Pkg: "p", Name: "y", Command: yCmd, Inputs: []string{"y.in"}, Outputs: []string{"y.out"}, Deps: []string{":x"}, Timeout: yTimeout, Tags: tags("y")})
 	zCmd := traceStart + `
 printf 'z(%s)' "$(cat y.out)" > z.out
 echo "end $GROG_TARGET" >> "$VTRACE"`
@@ -390,8 +396,12 @@ func (e *chainEngine) doOp(n *cnode, op chainOp) *cnode {
 		}
 		return k
 	}
+	unexpectedFailure := len(failed) == 0 && rr.Exit != 0
 	for _, t := range []string{"x", "y", "z", "w"} {
 		p := pred[t]
+		if unexpectedFailure {
+			break // reported below as a failing build; which targets ran is then not meaningful
+		}
 		if failFast && len(failed) > 0 && t != failed[0] {
 			continue // which independent targets still start under fail-fast depends on timing
 		}
